@@ -90,6 +90,9 @@ def exact_bin(ty, op, a, b):
         elif op == "div":
             r = tquot(a, b)
         elif op == "rem":
+            # MIN % -1: the quotient overflows, and Rust panics although the remainder (0) fits
+            if not fits(ty, tquot(a, b)):
+                return None
             r = a - tquot(a, b) * b
         elif op == "max":
             r = max(a, b)
